@@ -26,9 +26,7 @@ func parseStops(t []string, i, n int) ([]generate.GradientStop, int) {
 }
 
 // playHelper runs a generator helper starting at t[i] on destination d; returns next index (or -1) and the result string.
-func playHelper(d ivg.Destination, t []string, i int) (int, string) {
-	g := &generate.Generator{}
-	g.SetDestination(d)
+func playHelper(g *generate.Generator, t []string, i int) (int, string) {
 	f := func(j int) float32 { return f32arg(t[i+j]) }
 	var err error
 	var next int
@@ -136,11 +134,15 @@ func init() {
 			dr = &ivg.DestinationLogger{Destination: rd}
 			de = &ivg.DestinationLogger{Destination: enc, Alt: true}
 		}
+		// one Generator per destination for the whole history (a Generator may keep state between helpers)
+		gr, ge := &generate.Generator{}, &generate.Generator{}
+		gr.SetDestination(dr)
+		ge.SetDestination(de)
 		var obs []string
 		for i := 0; i < len(t); {
-			if j, res := playHelper(dr, t, i); j >= 0 {
+			if j, res := playHelper(gr, t, i); j >= 0 {
 				obs = append(obs, res+"r")
-				_, res2 := playHelper(de, t, i)
+				_, res2 := playHelper(ge, t, i)
 				obs = append(obs, res2+"e")
 				i = j
 			} else {
@@ -162,6 +164,10 @@ func init() {
 					i++
 				case "B":
 					enc.Bytes()
+					i++
+				case "NEW":
+					// what came before was an earlier use of the same Encoder and Renderer
+					z1.log = nil
 					i++
 				default:
 					j := playCall(dr, t, i)
